@@ -130,9 +130,68 @@ pub struct NetCfg {
     pub slow_permille: u64,
 }
 
+/// A model of a worker process (not the worker): keeps its own set of deployed pipelines and answers the
+/// coordinator's deploy/delete/checkpoint/restore/inject calls truthfully unless a fault says otherwise.
+#[derive(Default, Clone, Debug)]
+pub struct SimWorker {
+    pub up: bool,
+    pub next: u64,
+    /// pipeline id -> name
+    pub pipelines: BTreeMap<String, String>,
+}
+
+#[derive(Default, Clone)]
+pub struct WorkerFaultCfg {
+    pub http_error_permille: u64,
+    pub timeout_permille: u64,
+    pub reply_lost_permille: u64,
+    pub max_latency_ms: u64,
+}
+
+impl SimWorker {
+    pub fn handle(&mut self, host: &str, method: &str, path: &str, body: &[u8]) -> (u16, Value) {
+        let parts: Vec<&str> = path.trim_start_matches('/').split('/').collect();
+        // api/v1/pipelines[/<id>[/<verb>]]
+        if parts.len() < 3 || parts[0] != "api" || parts[2] != "pipelines" {
+            return (404, serde_json::json!({"error": "not found"}));
+        }
+        match (method, parts.len()) {
+            ("POST", 3) => {
+                let v: Value = serde_json::from_slice(body).unwrap_or(Value::Null);
+                let name = v["name"].as_str().unwrap_or("?").to_string();
+                self.next += 1;
+                let id = format!("pid-{}-{}", host.split(':').next().unwrap_or("w"), self.next);
+                self.pipelines.insert(id.clone(), name.clone());
+                (201, serde_json::json!({"id": id, "name": name, "status": "running"}))
+            }
+            ("DELETE", 4) => {
+                if self.pipelines.remove(parts[3]).is_some() { (200, serde_json::json!({"deleted": true})) } else { (404, serde_json::json!({"error": "pipeline not found"})) }
+            }
+            ("POST", 5) if parts[4] == "checkpoint" => {
+                if self.pipelines.contains_key(parts[3]) {
+                    (200, serde_json::json!({"pipeline_id": parts[3], "events_processed": 0,
+                        "checkpoint": {"version": 1, "window_states": {}, "sase_states": {}, "join_states": {}, "variables": {}, "events_processed": 0, "output_events_emitted": 0}}))
+                } else {
+                    (404, serde_json::json!({"error": "pipeline not found"}))
+                }
+            }
+            ("POST", 5) if parts[4] == "restore" => {
+                if self.pipelines.contains_key(parts[3]) { (200, serde_json::json!({"pipeline_id": parts[3], "restored": true, "events_restored": 0})) } else { (404, serde_json::json!({"error": "pipeline not found"})) }
+            }
+            ("POST", 5) => (200, serde_json::json!({"accepted": true, "output_events": []})),
+            _ => (404, serde_json::json!({"error": "not found"})),
+        }
+    }
+}
+
 pub struct Net {
     pub rng: Rng,
     pub cfg: NetCfg,
+    /// host ("w1:9000") → simulated worker
+    pub workers: BTreeMap<String, SimWorker>,
+    pub wcfg: WorkerFaultCfg,
+    /// (request, phase) events: the interleaving fingerprint of coordinator runs
+    pub events: Vec<String>,
     /// host ("c1:9100") → handler; absent = process down (connection refused)
     pub routes: HashMap<String, Routes>,
     /// isolated nodes (by raft node id): no traffic in or out
@@ -145,7 +204,7 @@ pub struct Net {
 }
 
 impl Net {
-    fn fault(&mut self, k: &str) {
+    pub fn fault(&mut self, k: &str) {
         *self.faults.entry(k.to_string()).or_insert(0) += 1;
     }
 }
@@ -169,6 +228,9 @@ pub fn transport(net: Arc<Mutex<Net>>) -> varpulis_cluster::verif_http::Transpor
         let net = net.clone();
         Box::pin(async move {
             let (host, path) = host_of(&req.url);
+            if host.starts_with('w') {
+                return worker_call(net, host, path, req).await;
+            }
             let dst = node_of_host(&host);
             // raft RPC bodies carry the sender in vote.leader_id.node_id
             let src = serde_json::from_slice::<Value>(&req.body).ok().and_then(|v| v["vote"]["leader_id"]["node_id"].as_u64()).unwrap_or(0);
@@ -252,6 +314,43 @@ pub fn transport(net: Arc<Mutex<Net>>) -> varpulis_cluster::verif_http::Transpor
             }
         })
     })
+}
+
+async fn worker_call(net: Arc<Mutex<Net>>, host: String, path: String, req: SimRequest) -> Result<SimResponse, String> {
+    let timeout = req.timeout.unwrap_or(Duration::from_secs(10));
+    enum F { Refused, Timeout, Error500, Ok { lost: bool } }
+    let (fate, lat) = {
+        let mut n = net.lock().unwrap();
+        let up = n.workers.get(&host).map(|w| w.up).unwrap_or(false);
+        let m = n.wcfg.max_latency_ms + 1;
+        let lat = n.rng.below(m);
+        let r = n.rng.below(1000);
+        let (a, b, c) = (n.wcfg.timeout_permille, n.wcfg.http_error_permille, n.wcfg.reply_lost_permille);
+        let fate = if !up { n.fault("worker-call-refused"); F::Refused }
+            else if r < a { n.fault("worker-call-timeout"); F::Timeout }
+            else if r < a + b { n.fault("worker-call-http-500"); F::Error500 }
+            else if r < a + b + c { n.fault("worker-call-reply-lost"); F::Ok { lost: true } }
+            else { F::Ok { lost: false } };
+        n.events.push(format!("worker-call {} {} {} issued", req.method, host, path));
+        (fate, lat)
+    };
+    tokio::time::sleep(Duration::from_millis(lat)).await;
+    let out = match fate {
+        F::Refused => Err("error trying to connect: connection refused".to_string()),
+        F::Timeout => { tokio::time::sleep(timeout).await; Err("operation timed out".to_string()) }
+        F::Error500 => Ok(SimResponse { status: 500, headers: vec![], body: b"{\"error\":\"injected worker failure\"}".to_vec() }),
+        F::Ok { lost } => {
+            let (status, body) = {
+                let mut n = net.lock().unwrap();
+                let w = n.workers.get_mut(&host).unwrap();
+                w.handle(&host, &req.method, &path, &req.body)
+            };
+            if lost { tokio::time::sleep(timeout).await; Err("operation timed out".to_string()) }
+            else { Ok(SimResponse { status, headers: vec![("content-type".into(), "application/json".into())], body: body.to_string().into_bytes() }) }
+        }
+    };
+    net.lock().unwrap().events.push(format!("worker-call {} {} {} returned {}", req.method, host, path, match &out { Ok(r) => r.status.to_string(), Err(e) => e.clone() }));
+    out
 }
 
 // ───────────────────────── nodes ─────────────────────────
@@ -379,7 +478,7 @@ pub fn run_c37(batch: &str, tape: &mut Tape, rep: &mut Report) {
     let mut seed_bytes = [0u8; 32];
     seed_bytes[..8].copy_from_slice(&seed.to_le_bytes());
     let rt = tokio::runtime::Builder::new_current_thread().enable_time().start_paused(true).rng_seed(tokio::runtime::RngSeed::from_bytes(&seed_bytes)).build().expect("runtime");
-    let net = Arc::new(Mutex::new(Net { rng: Rng::new(seed ^ 0x5eed), cfg: cfg_net, routes: HashMap::new(), isolated: BTreeSet::new(), stalled: BTreeSet::new(), faults: BTreeMap::new(), delivered: 0, log: vec![] }));
+    let net = Arc::new(Mutex::new(Net { rng: Rng::new(seed ^ 0x5eed), cfg: cfg_net, routes: HashMap::new(), isolated: BTreeSet::new(), stalled: BTreeSet::new(), faults: BTreeMap::new(), delivered: 0, log: vec![], workers: BTreeMap::new(), wcfg: WorkerFaultCfg::default(), events: vec![] }));
     varpulis_cluster::verif_http::set_transport(Some(transport(net.clone())));
     let dir = if rocks { Some(crate::storage::scratch("c37")) } else { None };
     let ccfg = ClusterCfg { rocks, snapshot_every, admin_key: Some("raft-key".into()) };
